@@ -56,6 +56,11 @@ def run_ceiling(case, ctx, mon):
                 mon.count(f"ceiling_steps_via_add_ngram:{fam}")
             else:
                 mon.api(s.add, key, 1)
+        elif how == "selfmerge":
+            # both operands are the same memory: the count doubles, saturating
+            v = true
+            mon.api(s.merge, s)
+            mon.count(f"self_merges:{fam}")
         elif how == "add":
             mon.api(s.add, key, v)
         else:
@@ -222,6 +227,12 @@ def gen_cases(ctx):
                              ["ngram", 1]]
                     cases.append({"type": "ceiling", "family": fam, "start": CAP - off - (3 if rng.random() < 0.5 else 0), "steps": steps,
                                   "key": hx(rand_key(rng, 1, 8)), "width": 64, "depth": int(rng.integers(1, 4))})
+        # the empty key, and merges whose two operands are one sketch, from a few starting points
+        for start in (5, 2**31 + 5, 2**31 - 1, CAP - 1, CAP):
+            cases.append({"type": "ceiling", "family": fam, "start": start, "key": "", "width": int(rng.integers(1, 6)), "depth": int(rng.integers(1, 4)),
+                          "steps": [["add", 3], ["add", 1], ["selfmerge", 0], ["add", 2], ["merge", 4], ["selfmerge", 0], ["add", 1]]})
+            cases.append({"type": "ceiling", "family": fam, "start": start, "key": hx(rand_key(rng, 1, 8)), "width": 64, "depth": 2,
+                          "steps": [["selfmerge", 0], ["add", 1], ["selfmerge", 0], ["selfmerge", 0]]})
     for r in range(4):
         for vals in ((2**31, 2**31 - 10, 100), (CAP // 2, 2**31 - 10, 12), (2**31 - 10, 2**31 - 10, 2**31), (CAP - 5, 3, 7), (2**30, 2**31, 2**30 + 5)):
             for d in (r + 1, 4):
